@@ -555,6 +555,81 @@ theorem C17_client_table_keys {ι β σc σs} [DecidableEq ι] (split3 : Key →
         · exact Or.inl (Or.inr ⟨c, hc, h⟩)
         · exact Or.inr ⟨co', hco', c, hc, h⟩
 
+/-! ## APFL: histories that interleave training rounds with evaluations -/
+
+/-- **Evaluation frame.** Evaluating any client ids — trained or held out — leaves the server state,
+in particular the client table, exactly as it was. -/
+theorem C17_eval_frame {ι β σc σs} [DecidableEq ι] (split3 : Key → Key × Key × Key) (seg : List Nat)
+    (grad : P → β → Key → P) (copt : Optimizer σc) (sopt : Optimizer σs) (coef0 : Rat)
+    (s : ApflServerState σs ι) (ids : List ι) :
+    apflStepOp split3 seg grad copt sopt coef0 s (ApflOp.eval ids : ApflOp ι β) = s := rfl
+
+/-- the clients that *trained* in a step -/
+def opTrainees {ι β} : ApflOp ι β → List (Client ι β)
+  | .train clients => clients
+  | .eval _ => []
+
+/-- **Client table keys along a mixed history**: a client has stored state iff it was stored
+before or took part in a *training* step; evaluated-only clients never appear; each id once. -/
+theorem C17_client_table_keys_ops {ι β σc σs} [DecidableEq ι] (split3 : Key → Key × Key × Key)
+    (seg : List Nat) (grad : P → β → Key → P) (copt : Optimizer σc) (sopt : Optimizer σs) (coef0 : Rat)
+    (s : ApflServerState σs ι) (ops : List (ApflOp ι β)) (i : ι) :
+    (i ∈ tkeys (apflHistory split3 seg grad copt sopt coef0 s ops).table ↔
+        i ∈ tkeys s.table ∨ ∃ op ∈ ops, ∃ c ∈ opTrainees op, c.id = i) ∧
+      ((tkeys s.table).Nodup → (tkeys (apflHistory split3 seg grad copt sopt coef0 s ops).table).Nodup) := by
+  induction ops generalizing s with
+  | nil => simp [apflHistory]
+  | cons op rest ih =>
+    unfold apflHistory
+    simp only [List.foldl_cons]
+    obtain ⟨h1, h2⟩ := ih (apflStepOp split3 seg grad copt sopt coef0 s op)
+    unfold apflHistory at h1 h2
+    cases op with
+    | eval ids =>
+      simp only [apflStepOp] at h1 h2 ⊢
+      refine ⟨?_, h2⟩
+      rw [h1]
+      constructor
+      · rintro (h | ⟨op', hop', c, hc, h⟩)
+        · exact Or.inl h
+        · exact Or.inr ⟨op', List.mem_cons_of_mem _ hop', c, hc, h⟩
+      · rintro (h | ⟨op', hop', c, hc, h⟩)
+        · exact Or.inl h
+        · rcases List.mem_cons.mp hop' with rfl | hop'
+          · simp [opTrainees] at hc
+          · exact Or.inr ⟨op', hop', c, hc, h⟩
+    | train clients =>
+      simp only [apflStepOp] at h1 h2 ⊢
+      obtain ⟨r1, r2⟩ := C17_client_table_round split3 seg grad copt sopt coef0 s clients i
+      refine ⟨?_, fun hn => h2 (r2 hn)⟩
+      rw [h1, r1]
+      constructor
+      · rintro ((h | ⟨c, hc, h⟩) | ⟨op', hop', c, hc, h⟩)
+        · exact Or.inl h
+        · exact Or.inr ⟨_, List.mem_cons_self, c, hc, h⟩
+        · exact Or.inr ⟨op', List.mem_cons_of_mem _ hop', c, hc, h⟩
+      · rintro (h | ⟨op', hop', c, hc, h⟩)
+        · exact Or.inl (Or.inl h)
+        · rcases List.mem_cons.mp hop' with rfl | hop'
+          · exact Or.inl (Or.inr ⟨c, hc, h⟩)
+          · exact Or.inr ⟨op', hop', c, hc, h⟩
+
+/-- the coefficient box survives mixed histories as well -/
+theorem C17_coeff_box_ops {ι β σc σs} [DecidableEq ι] (split3 : Key → Key × Key × Key)
+    (seg : List Nat) (grad : P → β → Key → P) (copt : Optimizer σc) (sopt : Optimizer σs) (coef0 : Rat)
+    (h0 : 0 ≤ coef0 ∧ coef0 ≤ 1) (s : ApflServerState σs ι) (ht : TableBox s.table)
+    (ops : List (ApflOp ι β)) :
+    TableBox (apflHistory split3 seg grad copt sopt coef0 s ops).table := by
+  induction ops generalizing s with
+  | nil => exact ht
+  | cons op rest ih =>
+    unfold apflHistory
+    simp only [List.foldl_cons]
+    apply ih
+    cases op with
+    | eval ids => exact ht
+    | train clients => exact C17_coeff_box split3 seg grad copt sopt coef0 h0 s ht clients
+
 /-! ## HypCluster: argmin assignment -/
 
 /-- `r` is an index of `l` whose value is ≤ every value and < every earlier value -/
@@ -955,5 +1030,13 @@ example : updateWeights [0, 0] [1, 1] = none := by decide +kernel
 example : sqnorm (clipByGlobalNorm (fun _ => 5) 1 [3, 4]) = 1 := by decide +kernel
 example : clipByGlobalNorm (fun _ => 5) 6 [3, 4] = [3, 4] := by decide +kernel
 example : maskTree ["b"] [("a", [1]), ("b", [2])] = [("a", [1])] := by decide +kernel
+
+/-- a mixed history: train, evaluate a held-out id (42), train — id 42 never enters the table -/
+example : tkeys ((apflHistory (fun k => (k ++ [false, false], k ++ [false, true], k ++ [true, false])) [2] exGrad
+    (sgd (1/4)) (sgd 1) (1/2) ⟨[1, 2], (), []⟩
+    [ApflOp.train exClients, ApflOp.eval [42, 7], ApflOp.train exClients]).table) = [7, 8] := by decide +kernel
+example : apflEvalParams [2] (⟨[1, 2], (), [(7, ⟨[5, 9], [1/2]⟩)]⟩ : ApflServerState Unit Nat) 7 = [3, 11/2] ∧
+    apflEvalParams [2] (⟨[1, 2], (), [(7, ⟨[5, 9], [1/2]⟩)]⟩ : ApflServerState Unit Nat) 42 = [1, 2] := by
+  decide +kernel
 
 end FedjaxVerif.Invariants
